@@ -35,15 +35,36 @@ const (
 var walkCounts = []int64{1, 2, 3, 40}
 
 type obs struct {
-	w  *World
-	fp hash.Hash64
+	w     *World
+	fp    hash.Hash64
+	lines []string
 }
 
 func (o *obs) rec(format string, a ...any) {
 	if o.fp != nil {
-		fmt.Fprintf(o.fp, format, a...)
+		line := fmt.Sprintf(format, a...)
+		o.fp.Write([]byte(line))
 		o.fp.Write([]byte{'\n'})
+		o.lines = append(o.lines, line)
 	}
+}
+
+// DiffTranscripts returns the first line in which two observation
+// transcripts differ.
+func DiffTranscripts(a, b []string) string {
+	for i := 0; i < len(a) || i < len(b); i++ {
+		var x, y string
+		if i < len(a) {
+			x = a[i]
+		}
+		if i < len(b) {
+			y = b[i]
+		}
+		if x != y {
+			return fmt.Sprintf("%q vs %q", x, y)
+		}
+	}
+	return ""
 }
 
 func errClass(err error) string {
@@ -95,6 +116,7 @@ func (w *World) Observe(mask ObsMask) uint64 {
 		}
 	}
 	if o.fp != nil {
+		w.Transcript = o.lines
 		return o.fp.Sum64()
 	}
 	return 0
@@ -387,6 +409,15 @@ func (o *obs) time(ObsMask) {
 	if !w.M.Monotone {
 		return
 	}
+	// Known finding (DESIGN.md 5, D12): index timestamps are max(time, 0), so
+	// lookups go wrong once a live message is older than the Unix epoch. The
+	// disagreement is tagged by that input class.
+	tag := ""
+	for _, m := range w.M.Live {
+		if m.T < 0 {
+			tag = "pre-epoch times: "
+		}
+	}
 	for _, q := range w.TimeQueries() {
 		qt := time.UnixMicro(q)
 		msg, err := w.L.GetByTime(qt)
@@ -396,24 +427,24 @@ func (o *obs) time(ObsMask) {
 		switch {
 		case ok:
 			if err != nil || !toModel(msg).Same(want) {
-				w.failf("C10", "GetByTime(%d) = (%v, %v), want %v [live %v]", q, toModel(msg), err, want, w.M.Live)
+				w.failf("C10", tag+"GetByTime(%d) = (%v, %v), want %v [live %v]", q, toModel(msg), err, want, w.M.Live)
 			}
 			if oerr != nil || off != want.Off || ot.UnixMicro() != want.T {
-				w.failf("C10", "OffsetByTime(%d) = (%d, %d, %v), want (%d, %d)", q, off, ot.UnixMicro(), oerr, want.Off, want.T)
+				w.failf("C10", tag+"OffsetByTime(%d) = (%d, %d, %v), want (%d, %d)", q, off, ot.UnixMicro(), oerr, want.Off, want.T)
 			}
 		case len(w.M.Live) == 0:
 			if !(errors.Is(err, klevdb.ErrNotFound) || errors.Is(err, klevdb.ErrInvalidOffset)) {
-				w.failf("C10", "GetByTime(%d) on a log without live messages = (%v, %v), want ErrNotFound or ErrInvalidOffset", q, toModel(msg), err)
+				w.failf("C10", tag+"GetByTime(%d) on a log without live messages = (%v, %v), want ErrNotFound or ErrInvalidOffset", q, toModel(msg), err)
 			}
 			if !(errors.Is(oerr, klevdb.ErrNotFound) || errors.Is(oerr, klevdb.ErrInvalidOffset)) {
-				w.failf("C10", "OffsetByTime(%d) on a log without live messages = %v, want ErrNotFound or ErrInvalidOffset", q, oerr)
+				w.failf("C10", tag+"OffsetByTime(%d) on a log without live messages = %v, want ErrNotFound or ErrInvalidOffset", q, oerr)
 			}
 		default:
 			if !errors.Is(err, klevdb.ErrNotFound) {
-				w.failf("C10", "GetByTime(%d) after all messages = (%v, %v), want ErrNotFound [live %v]", q, toModel(msg), err, w.M.Live)
+				w.failf("C10", tag+"GetByTime(%d) after all messages = (%v, %v), want ErrNotFound [live %v]", q, toModel(msg), err, w.M.Live)
 			}
 			if !errors.Is(oerr, klevdb.ErrNotFound) {
-				w.failf("C10", "OffsetByTime(%d) after all messages = %v, want ErrNotFound", q, oerr)
+				w.failf("C10", tag+"OffsetByTime(%d) after all messages = %v, want ErrNotFound", q, oerr)
 			}
 		}
 	}
@@ -453,5 +484,8 @@ func (o *obs) stat(ObsMask) {
 	}
 	if st.Segments != segs && !(segs == 0 && st.Segments <= 1) {
 		w.failf("C13", "Stat.Segments = %d, directory has %d log files", st.Segments, segs)
+	}
+	if pst, perr := klevdb.Stat(w.Dir, w.Cfg.Options()); perr != nil || pst != st {
+		w.failf("C13", "package-level Stat = (%+v, %v), handle Stat = %+v", pst, perr, st)
 	}
 }
